@@ -9,7 +9,7 @@ open Hts.Model.Index
 
 structure CBin where
   bin : Nat
-  left : Offset
+  left : Int
   records : Nat
   chunks : List Chunk
 deriving DecidableEq, Repr, Inhabited
@@ -56,17 +56,20 @@ def addRef (ref : CRef) (last : Int) (bin : Nat) (r : CRec) : CRef × Int × Boo
   if r.start < last then ({ ref with bins := nb.1 }, last, nb.2, .errPosOrder)
   else ({ bins := nb.1, stats := some (addStats ref.stats r.chunk r.mapped) }, r.start, nb.2, .ok)
 
+/-- a reference index without records -/
+def emptyRef : CRef := {}
+
 /-- `csi.Index.Add` -/
 def add (binOf : Int → Int → Nat → Nat → Nat) (i : CIndex) (r : CRec) : CIndex × AddRes :=
   if !(validPos i.minShift i.depth r.start && validPos i.minShift i.depth r.stop) then (i, .errRange) else
-  let um := match i.unmapped with | none => 0 | some n => n
+  let um := umCount i.unmapped
   if !r.placed then ({ i with unmapped := some (um + 1) }, .ok) else
   let i := { i with unmapped := some um }
   if r.rid < (i.refs.length : Int) - 1 then (i, .errRefOrder) else
   if r.rid < 0 then (i, .panicIndex) else
   let rid := r.rid.toNat
   let grown := decide (rid ≥ i.refs.length)
-  let refs := if grown then i.refs ++ List.replicate (rid + 1 - i.refs.length) {} else i.refs
+  let refs := if grown then i.refs ++ List.replicate (rid + 1 - i.refs.length) emptyRef else i.refs
   let last := if grown then 0 else i.lastRecord
   match refs[rid]? with
   | none => (i, .panicIndex)
